@@ -226,8 +226,8 @@ theorem C02_wire_redirect (acs query : String) :
     · simp only [h, if_true, true_iff]; simpa using h
     · simp only [h]; simp at h; simp [h]
 
-theorem C02_source_current : Gen.Facts.ssoChain = Expected.ssoChain ∧ Gen.Facts.sloChain = Expected.sloChain ∧
-    FactsUtil.sameHashes ["provider.LogoutResponse.sendBackLogoutResponse"] = true :=
-  ⟨by decide, by decide, by decide⟩
+/-- (the logout handler and `sendBackLogoutResponse` are no longer fingerprinted: they are translated,
+    `LogoutGen.logout_handler_refines`, `LogoutGen.sloSendBack_renders`) -/
+theorem C02_source_current : Gen.Facts.ssoChain = Expected.ssoChain := by decide
 
 end C02
